@@ -93,21 +93,21 @@ func dimsFor(format string) []dim {
 	ooxmlPaths := []string{"default", "twodigit", "nested", "renamed", "otherdir", "pct", "plus", "updir"}
 	decoys := []string{"none", "first", "mid", "last", "first+link", "mid+link", "last+link"}
 	absent := []string{"none", "first", "mid", "last"}
+	epubPaths := []string{"default", "twodigit", "nested", "renamed", "rootopf", "deepopf", "pct", "plus", "pctplus", "utf8", "updir"}
+	place := dim{"place", []string{"after", "before"}}            // part members after / before the infrastructure members
+	relorder := dim{"relorder", []string{"creation", "reversed"}} // order of <Relationship> / manifest <item> elements
+	// the dimensions listed last are enumerated first (path and decoy deviations before the cosmetic ones)
 	switch format {
 	case "xlsx":
-		return []dim{{"path", ooxmlPaths}, {"target", []string{"rel", "abs"}}, {"opt", []string{"all", "no-sst", "no-styles", "no-docprops"}},
-			{"decoy", decoys}, {"absent", absent}, {"relorder", []string{"creation", "reversed"}}, {"place", []string{"after", "before"}}}
+		return []dim{place, relorder, {"target", []string{"rel", "abs"}}, {"opt", []string{"all", "no-sst", "no-styles", "no-docprops"}},
+			{"absent", absent}, {"decoy", decoys}, {"path", ooxmlPaths}}
 	case "pptx":
-		return []dim{{"path", ooxmlPaths}, {"target", []string{"rel", "abs"}}, {"opt", []string{"all", "no-docprops", "no-theme", "no-sliderels", "notes"}},
-			{"decoy", decoys}, {"absent", absent}, {"relorder", []string{"creation", "reversed"}}, {"place", []string{"after", "before"}}}
+		return []dim{place, relorder, {"target", []string{"rel", "abs"}}, {"opt", []string{"all", "no-docprops", "no-theme", "no-sliderels", "notes"}},
+			{"absent", absent}, {"decoy", decoys}, {"path", ooxmlPaths}}
 	case "epub2":
-		return []dim{{"path", []string{"default", "twodigit", "nested", "renamed", "rootopf", "deepopf", "pct", "plus", "pctplus", "utf8", "updir"}},
-			{"opt", []string{"all", "no-nav", "both-nav"}},
-			{"decoy", decoys}, {"absent", absent}, {"relorder", []string{"creation", "reversed"}}, {"place", []string{"after", "before"}}}
+		return []dim{place, relorder, {"opt", []string{"all", "no-nav", "both-nav"}}, {"absent", absent}, {"decoy", decoys}, {"path", epubPaths}}
 	case "epub3":
-		return []dim{{"path", []string{"default", "twodigit", "nested", "renamed", "rootopf", "deepopf", "pct", "plus", "pctplus", "utf8", "updir"}},
-			{"opt", []string{"all", "no-nav", "both-nav", "nav-in-spine"}},
-			{"decoy", decoys}, {"absent", absent}, {"relorder", []string{"creation", "reversed"}}, {"place", []string{"after", "before"}}}
+		return []dim{place, relorder, {"opt", []string{"all", "no-nav", "both-nav", "nav-in-spine"}}, {"absent", absent}, {"decoy", decoys}, {"path", epubPaths}}
 	}
 	panic("format")
 }
@@ -322,11 +322,13 @@ func buildPPTX(s *spec) built {
 	}
 	for i, k := range s.decl {
 		sl := mk(k, s.name[k], fmt.Sprintf("rId%d", 11+k))
+		sl.SlideID = 256 + k // creation order: a moved slide keeps its id
 		sl.Absent = i == s.absentPos()
 		d.Slides = append(d.Slides, sl)
 	}
 	if s.v["decoy"] != "none" {
 		sl := mk(-1, -1, "rId77")
+		sl.SlideID = 999
 		sl.Related = strings.HasSuffix(s.v["decoy"], "+link")
 		d.Decoys = []pptxw.Slide{sl}
 	}
@@ -388,6 +390,7 @@ func buildEPUB(s *spec) built {
 		b.Decoys = []epubw.Chapter{c}
 	}
 	b.ManifestOrder = s.relOrder()
+	b.NavOrder = s.relOrder() // the TOC lists the chapters in creation order (or its reverse), not in reading order
 	b.PartOrder = s.partOrder()
 	exp := s.expected()
 	if b.NavInSpine {
@@ -675,15 +678,28 @@ func run(e *harness.Env) {
 	e.Note("bound", "quick: 3 parts, <=1 non-default variant value; thorough: 3 parts <=2, 4 parts <=1")
 	formats := []string{"xlsx", "pptx", "epub2", "epub3"}
 	for _, ps := range passes {
+		pm := perms(ps.n)
+		pstrs := make([]string, len(pm))
+		invs := make([][]int, len(pm))
+		for i, p := range pm {
+			pstrs[i], invs[i] = pstr(p), inverse(p)
+		}
+		// formats are interleaved variant by variant, so that a time cap cuts all formats evenly
+		vlists := map[string][]map[string]string{}
+		maxLen := 0
 		for _, format := range formats {
-			ds := dimsFor(format)
-			pm := perms(ps.n)
-			pstrs := make([]string, len(pm))
-			invs := make([][]int, len(pm))
-			for i, p := range pm {
-				pstrs[i], invs[i] = pstr(p), inverse(p)
+			vlists[format] = variants(dimsFor(format), ps.maxDev)
+			if len(vlists[format]) > maxLen {
+				maxLen = len(vlists[format])
 			}
-			for _, v := range variants(ds, ps.maxDev) {
+		}
+		for vi := 0; vi < maxLen; vi++ {
+			for _, format := range formats {
+				if vi >= len(vlists[format]) {
+					continue
+				}
+				ds := dimsFor(format)
+				v := vlists[format][vi]
 				var vd []interface{}
 				devs := 0
 				var devNames []string
